@@ -37,6 +37,11 @@ FTYPES = {
     "FnT8": ("fn(T) -> u8", "T", False, None),
     "ArrTup": ("[(T, u8); 2]", "T", False, None),
     "QAssocRel": ("<T as dxrt::Tr>::Assoc", "T", False, None),
+    # the same types written with redundant parentheses / a trailing comma
+    "ParT": ("(T)", "T", False, None),
+    "ParOpt": ("(::core::option::Option<(T)>)", "T", False, "::core::option::Option::None"),
+    "TupTc": ("(T, u8,)", "T", False, None),
+    "RefPar": ("&'l (T)", "T", True, None),
     "u8": ("u8", "", False, "5"),
     "Yes": (D + "Yes", "", False, D + "Yes"),
     "RefU8": ("&'l u8", "", True, None),
@@ -371,7 +376,7 @@ def core(rng):
     # every trait x a few characteristic field types, struct form
     for t in PLAIN + C.BINOPS + C.ASSIGNOPS + C.UNOPS:
         for fts in (["PhT", "T"], ["FwdT", "AlwaysT"], ["NeverT"], ["OptT", "u8"], ["ArrN", "Yes"], ["Assoc", "U"], ["TupT8", "Tup8T"],
-                    ["ResT8", "FnT8"], ["QAssocRel", "ArrTup"], ["OptTup"]):
+                    ["ResT8", "FnT8"], ["QAssocRel", "ArrTup"], ["OptTup"], ["ParT", "TupTc"], ["ParOpt", "RefPar"]):
             k += 1
             fts = [f for f in fts if concrete_ok(f, t)]
             specs.append({"trait": t, "kind": "struct", "entry": "attr" if k % 2 else "derive", "where_tr": k % 4 == 0, "dv": 0,
